@@ -245,6 +245,8 @@ class _Translator:
         out = [str(len(stmts))]
         new = []
         for s in stmts:
+            if isinstance(s, ast.AnnAssign) and isinstance(s.target, ast.Name) and s.value is not None and s.simple:
+                s = ast.Assign(targets=[s.target], value=s.value, lineno=s.lineno)
             if not (isinstance(s, ast.Assign) and len(s.targets) == 1 and isinstance(s.targets[0], ast.Name)):
                 self.fail(s, "branch of an if/else is not a plain assignment")
             value = self.expr(s.value)
@@ -292,6 +294,9 @@ class _Translator:
         if isinstance(s, ast.Return) and s.value is not None:
             return ["ret"] + self.expr(s.value)
         if isinstance(s, ast.FunctionDef):
+            if (len(s.body) == 2 and isinstance(s.body[0], ast.Expr) and isinstance(s.body[0].value, ast.Constant)
+                    and isinstance(s.body[0].value.value, str)):
+                s = ast.FunctionDef(name=s.name, args=s.args, body=s.body[1:], decorator_list=s.decorator_list, lineno=s.lineno)
             if (len(s.args.args) == 1 and not s.args.defaults and not s.decorator_list and len(s.body) == 1
                     and isinstance(s.body[0], ast.Return) and s.body[0].value is not None):
                 p = s.args.args[0].arg
